@@ -851,6 +851,53 @@ def gen_pairs(ctx):
     k = 3000 if ctx.thorough else 160
     for _ in range(k):
         out.append((copy.deepcopy(rng.choice(uni)), copy.deepcopy(rng.choice(uni)), "universe"))
+    out.extend(shared_row_pairs(rng, 700 if ctx.thorough else 45))
+    return out
+
+
+# inputs that reference ONE container object from several positions ([row] * k): DeepHash serves the repeated object
+# from its table, and the item lengths that divide the operation count must be those of the unfolded tree (what
+# values.to_coq feeds the model).  repr() would unfold the sharing, so these inputs travel as expressions.
+SHARED_EXPR = {}
+SHARED_SHAPES = {
+    "list": "(lambda r: [r] * %(k)d)(%(row)r)",
+    "tuple": "(lambda r: (r,) * %(k)d)(%(row)r)",
+    "list_extra": "(lambda r: [r] * %(k)d + [%(extra)r])(%(row)r)",
+    "dict_of_list": "(lambda r: {'g': [r] * %(k)d, 'n': %(extra)r})(%(row)r)",
+    "nested": "(lambda r: [[r] * %(k)d, [r, %(extra)r]])(%(row)r)",
+    "two_rows": "(lambda r, q: [r, q] * %(k)d)(%(row)r, [%(extra)r])",
+}
+
+
+def text_of(v):
+    return SHARED_EXPR.get(id(v)) or repr(v)
+
+
+def shared_row_pairs(rng, n):
+    out = []
+    hand = [("(lambda r: [r] * 4)([0, 0, 0, 0, 0, 0, 0, 0])", "(lambda r: [r] * 4)([1, 1, 1, 1, 1, 1, 1, 1])"),
+            ("(lambda r: [r] * 8)({'a': 1, 'b': 2, 'c': 3, 'd': 4})", "(lambda r: [r] * 8)({'a': 5, 'b': 6, 'c': 7, 'd': 8})"),
+            ("(lambda r: [r] * 3)([0, 0, 0, 0])", "(lambda r: [r] * 3)([0, 0, 0, 0])"),
+            ("(lambda r: {'g': [r] * 5})([1, 2, 3])", "(lambda r: {'g': [r] * 5})([4, 5, 6])")]
+    exprs = list(hand)
+    for _ in range(n):
+        k = rng.randint(2, 6)
+        width = rng.randint(3, 8)
+        if rng.random() < 0.7:
+            row1 = [rng.choice([0, 1, 2, "a", None, 2.5]) for _ in range(width)]
+            row2 = [(x if rng.random() < 0.15 else rng.choice([5, 6, 7, "b", "c", 1.5])) for x in row1]
+            if rng.random() < 0.2:
+                row2 = row2[:-1] if rng.random() < 0.5 else row2 + [9]
+        else:
+            row1 = {"k%d" % i: rng.choice([0, 1, 2, "a"]) for i in range(width)}
+            row2 = {kk: (v if rng.random() < 0.15 else rng.choice([5, 6, 7, "b"])) for kk, v in row1.items()}
+        shape = SHARED_SHAPES[rng.choice(sorted(SHARED_SHAPES))]
+        extra = rng.choice([0, "x", None, 3])
+        exprs.append((shape % {"k": k, "row": row1, "extra": extra}, shape % {"k": k, "row": row2, "extra": extra}))
+    for e1, e2 in exprs:
+        t1, t2 = _ev(e1), _ev(e2)
+        SHARED_EXPR[id(t1)], SHARED_EXPR[id(t2)] = e1, e2
+        out.append((t1, t2, "shared_rows"))
     return out
 
 
@@ -892,10 +939,11 @@ def same_typed(a, b):
         return type(a) is type(b) and a == b
 
 
-def oracle_pair(ctx, t1, t2, cfg, how):
-    """The statement of C19 on the public API, independent of the model."""
+def oracle_pair(ctx, t1, t2, cfg, how, texts=None):
+    """The statement of C19 on the public API, independent of the model.  `texts`: Python expressions that rebuild the
+    inputs (needed when an object is referenced from several positions: repr() would unfold it)."""
     from deepdiff import DeepDiff
-    case = {"kind": "deep_distance", "t1": repr(t1), "t2": repr(t2), "config": cfg, "how": how}
+    case = {"kind": "deep_distance", "t1": texts[0] if texts else repr(t1), "t2": texts[1] if texts else repr(t2), "config": cfg, "how": how}
     try:
         d = DeepDiff(t1, t2, get_deep_distance=True, **cfg)
     except Exception as e:
@@ -975,10 +1023,10 @@ def rough_part(ctx):
                 + rng.sample(CONFIGS[3:], 2 if ctx.thorough else 1)
             for cfg in cfgs:
                 rec.records.clear()
-                a, b = copy.deepcopy(t1), copy.deepcopy(t2)
-                d = oracle_pair(ctx, a, b, cfg, how)
+                a, b = copy.deepcopy(t1), copy.deepcopy(t2)        # deepcopy keeps objects shared inside t1 / t2 shared
+                d = oracle_pair(ctx, a, b, cfg, how, texts=(text_of(t1), text_of(t2)) if how == "shared_rows" else None)
                 nt = not same_typed(t1, t2)
-                ctx.seen(("rough", repr(t1), repr(t2), repr(sorted(cfg.items()))), nontrivial=nt)
+                ctx.seen(("rough", text_of(t1), text_of(t2), repr(sorted(cfg.items()))), nontrivial=nt)
                 ctx.count("rough:" + how.split(":")[0])
                 ctx.count("rough_cfg:" + ("ignore_order" if cfg.get("ignore_order") else "ordered") + "/" + cfg.get("view", "text"))
                 recs = list(rec.records)
@@ -1069,6 +1117,199 @@ def rough_part(ctx):
     ctx.coq_cases("sdelta", HEADER, sd_cases, shard=150, label="delta_as_positions")
     ctx.coq_cases("diffmodel", HEADER + "\nFrom DD Require Import Diff.Tree Diff.DiffModel Diff.DiffShow Dist.DistDiffModel.",
                   dm_cases, shard=120, label="distance_from_diff_model")
+
+
+# ---------------------------------------------------------------------------
+# (i) ignore_order=True: deep_distance from the inputs and the recorded pairings alone
+#     (DiffIO/DiffIOModel.v diff_io + Dist/DistIOModel.v delta view), the hypotheses of
+#     C19_deep_distance_range_ignore_order observed on the real runs
+# ---------------------------------------------------------------------------
+
+IO_HEADER = ("From Coq Require Import PrimFloat.\nFrom DD Require Import Base.PyStr Base.Value Diff.Tree Diff.DiffModel Diff.DiffShow "
+             "Hash.HashModel DiffIO.DiffIOModel DiffIO.DiffIOShow Dist.DistModel Dist.DistShow Dist.DistIOModel Dist.DistIOShow.\n"
+             "Local Open Scope Z_scope.")
+
+IO_CONFIGS = [dict(), dict(cutoff_distance_for_pairs=0.6), dict(cutoff_distance_for_pairs=1.0, cutoff_intersection_for_pairs=1),
+              dict(cutoff_intersection_for_pairs=1), dict(max_passes=0), dict(cutoff_distance_for_pairs=0.1)]
+
+
+def dlen(v):
+    """ilen for a delta-view entry: additionally a class (old_type / new_type) counts 1"""
+    if isinstance(v, Mapping):
+        return sum(dlen(x) for k, x in v.items() if not (isinstance(k, str) and (k.startswith("_") or k in ("deep_distance", "new_path"))))
+    if isinstance(v, NUMBERS) or isinstance(v, (str, bytes)):
+        return 1
+    if isinstance(v, Iterable):
+        return sum(dlen(x) for x in v)
+    return 1 if isinstance(v, type) else 0
+
+
+def delta_ops(delta):
+    """independent re-statement of _get_item_length on a delta-view dict: the two {path: {index: item}} reports are
+    counted once per object (id) and path, keys starting with '_' are skipped"""
+    n = 0
+    for key, sub in delta.items():
+        if key in ("iterable_items_added_at_indexes", "iterable_items_removed_at_indexes"):
+            for _path, m in sub.items():
+                seen = set()
+                for _k, v in m.items():
+                    if id(v) not in seen:
+                        seen.add(id(v))
+                        n += dlen(v)
+        elif isinstance(key, str) and (key.startswith("_") or key in ("deep_distance", "new_path")):
+            continue
+        else:
+            n += dlen(sub)
+    return n
+
+
+def items_unrepeated(v, rep):
+    """no list / tuple inside v holds two items that DeepHash (with the run's ignore_repetition) identifies:
+    the third disjunct of io_guard, restated on the canonical nested set / multiset form of C05"""
+    from harness.props import c05
+    if isinstance(v, (list, tuple)):
+        cs = [c05.spec_canon(x, rep) for x in v]
+        return len(set(cs)) == len(cs) and all(items_unrepeated(x, rep) for x in v)
+    if isinstance(v, dict):
+        return all(items_unrepeated(x, rep) for x in v.values())
+    return True
+
+
+def has_repeated_items(v):
+    return not items_unrepeated(v, True)
+
+
+def type_change_table(tree):
+    """(Coq table of new_type(old) != new per type change, the type-change guard recomputed in Python)"""
+    inc, guard = [], True
+    for lv in tree.get("type_changes", []) or []:
+        a, b = lv.t1, lv.t2
+        try:
+            include = bool(type(b)(a) != b)
+        except Exception:
+            include = True
+        inc.append("(%s, %s, %s)" % (values.to_coq(a), values.to_coq(b), core.coq_bool(include)))
+        guard = guard and (2 + (ilen(b) if include else 0) <= icount(a) + icount(b))
+    return inc, guard
+
+
+def io_model_case(a, b, cfg, rec19):
+    """one run of DeepDiff(a, b, ignore_order=True, get_deep_distance=True, **cfg) with the pairings recorded by the
+    C05 recorder -> (coq expr, expected, info).  None when the run is outside the model."""
+    from deepdiff import DeepDiff
+    from harness import diffcommon as D
+    from harness.props import c05
+    rep = bool(cfg.get("report_repetition", False))
+    rec19.records.clear()
+    with c05.Recording() as rec:
+        tree = DeepDiff(a, b, view="tree", get_deep_distance=True, **cfg)
+        tbl = c05.pairs_table(rec)
+        valid = all(c05.pairs_valid(x) for x in rec)
+    dist = tree.get("deep_distance", None)
+    m = icount(a) + icount(b)
+    roots = [r for r in rec19.records if r.get("root") and "delta" in r]
+    if roots:
+        n_impl = delta_ops(roots[-1]["delta"])
+    else:
+        n_impl = 0 if not dist else int(round(dist * m))
+    scalar_root = isinstance(a, SCALAR_TYPES) and isinstance(b, SCALAR_TYPES)
+    inc, tguard = type_change_table(tree)
+    uniq = items_unrepeated(a, rep)
+    paired = sum(len(ji) for _p, ji, _x, _y in tbl)
+    cut = coq_float(float(cfg.get("cutoff_distance_for_pairs", 0.3)))
+    expr = "dist_io_case false %s %s %s [%s] %s %s %s" % (
+        D.coq_cfg(False, 0.33, True), core.coq_bool(rep), c05.coq_pairs_table(tbl), "; ".join(inc), cut, values.to_coq(a), values.to_coq(b))
+    exp = [obs_rough(dist), n_impl, icount(a), icount(b), bool(tguard), bool(uniq)]
+    inside = bool(tguard) and (not rep or uniq or not paired)
+    return expr, exp, {"dist": dist, "paired": paired, "levels": len(tbl), "valid": valid, "inside": inside, "rep": rep,
+                       "scalar_root": scalar_root, "n": n_impl, "m": m}
+
+
+def io_pairs(ctx):
+    """pairs for the ignore-order stream: C19's own pairs, the ignore-order pairs of C05 (near-duplicates, re-ordered
+    and edited containers, repetition), and families with an item repeated k times on one side (K28 and its neighbours)"""
+    from harness.props import c05
+    rng = ctx.rng
+    out = []
+    hand = [([[1]] * 8, [[1, 2, 3, 4]]), ([[1, 2], 7], [[1, 2, 3], 7, 7]), ([[1]] * 3, [[1, 2]]), ([[1, 2]] * 2, [[1, 2, 3]] * 3),
+            ([1, 1, 2], [1, 3]), ([1, 2, 2, 3], [2, 3, 3, 4]), ([[1, 2], [1, 2], [3]], [[3, 4], [1, 2]]), ([{"a": 1}] * 3, [{"a": 1, "b": 2}]),
+            ([(1, 2)] * 4, [(1, 2, 3), (1, 2)]), ([[], [], [1]], [[1, 1]]), ([["a", "b"]] * 5, [["a", "b", "c", "d"], "x"]),
+            ({"k": [[1]] * 6}, {"k": [[1, 2, 3]]}), ([[[1]] * 4, 5], [[[1, 2, 3]], 5, 5])]
+    for a, b in hand:
+        out.append((copy.deepcopy(a), copy.deepcopy(b), "io_hand"))
+        out.append((copy.deepcopy(b), copy.deepcopy(a), "io_hand"))
+    for a, b in c05.FIXED_PAIRS[:(None if ctx.thorough else 12)]:
+        out.append((copy.deepcopy(a), copy.deepcopy(b), "c05_fixed"))
+    for _ in range(1200 if ctx.thorough else 60):
+        a, b, _kinds = c05.gen_pair(rng, alias=False, depth=rng.choice([2, 3]))
+        out.append((a, b, "c05_gen"))
+    for _ in range(600 if ctx.thorough else 40):
+        x = values.gen_value(rng, depth=rng.choice([1, 1, 2]), width=rng.choice([1, 2, 3]), kinds="LTD")
+        y, _k = values.edit(rng, copy.deepcopy(x))
+        k = rng.randint(2, 9)
+        a = [copy.deepcopy(x) for _i in range(k)] + ([values.gen_atom(rng)] if rng.random() < 0.3 else [])
+        b = [y] * rng.randint(1, 2) + ([values.gen_atom(rng)] if rng.random() < 0.3 else [])
+        if rng.random() < 0.5:
+            a, b = b, a
+        out.append((a, b, "repeated_item"))
+    return out
+
+
+def io_model_part(ctx):
+    import random
+    import types
+    from harness import diffcommon as D
+    from harness.props import c05
+    rng = random.Random(ctx.seed ^ 0x1019)           # own stream: the other parts keep their inputs
+    sub = types.SimpleNamespace(rng=rng, thorough=ctx.thorough)
+    rec19 = Recorder()
+    rec19.install()
+    cases = []
+    try:
+        pairs = [(t1, t2, how) for (t1, t2, how) in gen_pairs(sub) if how.split(":")[0] in
+                 ("hand", "edit", "multi_edit_list", "shuffled_containers", "universe", "unrelated")]
+        rng.shuffle(pairs)
+        pairs = io_pairs(sub) + pairs[:(4000 if ctx.thorough else 110)]
+        for (t1, t2, how) in pairs:
+            try:
+                ok = in_universe(t1) and in_universe(t2) and D.in_model_guard(t1, t2) and not values.contains_alias(t1, t2) \
+                    and not c05.has_tag_like(t1, t2) and not has_crash_key(t1) and not has_crash_key(t2)
+            except Exception:
+                ok = False
+            if not ok:
+                ctx.count("io_model:outside_model_guard")
+                continue
+            base = rng.sample(IO_CONFIGS, 2 if ctx.thorough else 1) if how not in ("io_hand", "repeated_item") else [IO_CONFIGS[1], IO_CONFIGS[2]]
+            for kn in base:
+                for rep in (False, True):
+                    cfg = dict(kn, ignore_order=True, report_repetition=rep)
+                    a, b = copy.deepcopy(t1), copy.deepcopy(t2)
+                    d = oracle_pair(ctx, a, b, cfg, how)
+                    ctx.seen(("io_model", repr(t1), repr(t2), repr(sorted(cfg.items()))), nontrivial=not same_typed(t1, t2))
+                    if d is None:
+                        continue
+                    try:
+                        a, b = copy.deepcopy(t1), copy.deepcopy(t2)
+                        expr, exp, info = io_model_case(a, b, cfg, rec19)
+                    except (TypeError, AssertionError, KeyError):
+                        ctx.count("io_model:not_expressible")
+                        continue
+                    tag = {"t1": repr(t1), "t2": repr(t2), "config": cfg, "impl": repr(info["dist"]), "how": how}
+                    if not info["valid"]:
+                        ctx.break_("correspondence", dict(tag, what="recorded pairing is not a symmetric partial injection between added and removed hashes"))
+                    cases.append((expr, exp, tag))
+                    ctx.count("io_model:" + ("rep" if rep else "norep") + ("/with_pairs" if info["paired"] else "/no_pairs")
+                              + ("/inside_guard" if info["inside"] else "/outside_guard"))
+                    ctx.count("io_model_how:" + how)
+                    x = info["dist"]
+                    if info["inside"] and not info["scalar_root"] and x is not None and x > 1:
+                        ctx.break_("correspondence", dict(tag, name="deep_distance_io_range",
+                                                          meaning="inside io_guard and the type-change guard but deep_distance = %r" % (x,)))
+                    if len(ctx.samples) < 6 and info["paired"] and rep:
+                        ctx.sample({"t1": repr(t1)[:200], "t2": repr(t2)[:200], "config": cfg, "deep_distance": repr(x), "ops": info["n"], "lengths": info["m"]})
+    finally:
+        rec19.uninstall()
+    ctx.coq_cases("iomodel", IO_HEADER, cases, shard=40, label="distance_from_ignore_order_diff_model")
 
 
 # ---------------------------------------------------------------------------
@@ -1393,6 +1634,30 @@ def m_numpy_zero(case):
             (div != 0 and not np.isinf(num) and abs(Fraction(float(num)) / Fraction(float(div))) <= Fraction(1, 2 ** 1075))
 
 
+def m_repeated_pair_replicated(case):
+    """deep_distance > 1 with ignore_order + report_repetition on a t1 that holds a repeated item, while the same inputs
+    are in range (up to K13) without report_repetition and when nothing is paired: the excess comes from diffing a
+    paired item once per occurrence of the removed item (C19_deep_distance_ignore_order_rep_refuted)."""
+    if case.get("kind") not in ("deep_distance", "pairing_distance") or "exception" in case:
+        return False
+    cfg = {k: v for k, v in case.get("config", {}).items() if k != "view"}
+    if not (cfg.get("ignore_order") and cfg.get("report_repetition")):
+        return False
+    from deepdiff import DeepDiff
+    dist = _ev(case.get("deep_distance", case.get("result")))
+    if dist is None or not dist > 1:
+        return False
+    t1, t2 = _ev(case["t1"]), _ev(case["t2"])
+    if not has_repeated_items(t1):
+        return False
+    for other in (dict(cfg, report_repetition=False), dict(cfg, max_passes=0)):
+        d2 = DeepDiff(copy.deepcopy(t1), copy.deepcopy(t2), get_deep_distance=True, **other).get("deep_distance", 0)
+        if d2 > 1 and not m_type_change_excess({"kind": "deep_distance", "t1": case["t1"], "t2": case["t2"], "config": other,
+                                                "deep_distance": repr(d2)}):
+            return False
+    return True
+
+
 MATCHERS = {
     "C19-K13-type-change-excess": m_type_change_excess,
     "C19-K14-zero-by-overflow": m_zero_overflow,
@@ -1410,6 +1675,7 @@ MATCHERS = {
     "C19-K25-log-scale-unclamped": m_log_scale_unclamped,
     "C19-K26-complex-type-error": m_complex,
     "C19-K27-group-by-value-error": m_group_by,
+    "C19-K28-repeated-pair-replicated": m_repeated_pair_replicated,
 }
 
 
@@ -1437,6 +1703,14 @@ def witnesses(ctx):
         ("K24 (operations hidden in _iterable_opcodes)", lambda: DeepDiff([1, 2, 3, 5, 6], [1, 2, 4, 3, 5, 6, 7], get_deep_distance=True).get("deep_distance", 0) == 0),
         ("K21 (AttributeError on a user key named like a delta key)",
          lambda: isinstance(call(lambda: DeepDiff({}, {"x": {"iterable_items_added_at_indexes": 5}}, get_deep_distance=True))[1], AttributeError)),
+        ("C19_deep_distance_ignore_order_rep_refuted (K28)", lambda: DeepDiff([[1] for _ in range(8)], [[1, 2, 3, 4]], ignore_order=True,
+            report_repetition=True, cutoff_distance_for_pairs=0.6, get_deep_distance=True).get("deep_distance") == 24 / 23
+         and DeepDiff([[1] for _ in range(8)], [[1, 2, 3, 4]], ignore_order=True, cutoff_distance_for_pairs=0.6,
+                      get_deep_distance=True).get("deep_distance") == 3 / 23),
+        ("deep_distance_io_guard_satisfiable", lambda: DeepDiff([[1, 2], 7], [[1, 2, 3], 7, 7], ignore_order=True, cutoff_distance_for_pairs=0.6,
+            get_deep_distance=True).get("deep_distance") == 1 / 12
+         and DeepDiff([[1, 2], 7], [[1, 2, 3], 7, 7], ignore_order=True, report_repetition=True, cutoff_distance_for_pairs=0.6,
+                      get_deep_distance=True).get("deep_distance") == 2 / 12),
         ("K19b (tzinfo of a time ignored)", lambda: get_numeric_types_distance(
             datetime.time(12, tzinfo=datetime.timezone.utc), datetime.time(12, tzinfo=datetime.timezone(datetime.timedelta(hours=5, minutes=30))), 1.0) == 0),
     ]
@@ -1466,7 +1740,7 @@ def run(ctx):
     ctx.coq_cases = deferred
     t = {}
     try:
-        for f in (numbers_part, scalars_part, numpy_part, rough_part, extras_part, witnesses):
+        for f in (numbers_part, scalars_part, numpy_part, io_model_part, rough_part, extras_part, witnesses):
             t0 = time.time()
             f(ctx)
             t[f.__name__] = round(time.time() - t0, 1)
@@ -1494,7 +1768,7 @@ def replay(ctx, data):
     elif kind in ("deep_distance", "pairing_distance"):
         t1, t2 = _ev(case["t1"]), _ev(case["t2"])
         cfg = case.get("config", {})
-        d = oracle_pair(ctx, t1, t2, cfg, "replay")
+        d = oracle_pair(ctx, t1, t2, cfg, "replay", texts=(case["t1"], case["t2"]))
         ctx.evaluations += 1
         print("replay: DeepDiff(%r, %r, get_deep_distance=True, **%r) -> %r" % (t1, t2, cfg, None if d is None else d.get("deep_distance")))
     elif kind == "numbers_log":
